@@ -37,6 +37,9 @@ fn main() {
     if let Some(sz) = arg(&args, "--segsize").and_then(|s| s.parse::<u64>().ok()) {
         nomt::verif_hook::set_rollback_segment_size(sz);
     }
+    if args.iter().any(|a| a == "--fat") {
+        db::FAT.store(true, std::sync::atomic::Ordering::Relaxed);
+    }
     match cmd.as_str() {
         "crash-child" => std::process::exit(crash::child(&args)),
         "dump" => std::process::exit(crash::dump(&args)),
